@@ -129,11 +129,11 @@ def _tag_view(interp, args, kwargs):
     return SV(ty, f(args[0].t, _s(interp, args[1])))
 
 
-def _ulist(name, n):
+def _ulist(name, n, elem="Issue"):
     """uninterpreted list-valued function of n object/bool arguments (deterministic callee named in a caller's contract)"""
     def f(interp, args, kwargs):
         from pyvc.vals import TList, TRef
-        ty = TList(TRef("Issue"))
+        ty = TList(TRef(elem))
         ctx = interp.ctx
         ts = []
         for a in args:
@@ -272,6 +272,9 @@ if z3 is not None:
         "json.dump": _json_dump, "time.time": _time,
         "file_key_of": _ufun("file_key_of", 2), "backup_path_of": _ufun("backup_path_of", 3), "empty_str_set": _empty_str_set,
         "datetime.now": lambda interp, args, kwargs: Opaque("now", fresh=True),
+        "string_issues_of": _ulist("string_issues_of", 3), "char_issues_of": _ulist("char_issues_of", 3),
+        "canonical_issues_of": _ulist("canonical_issues_of", 1), "tag_rule_issues_of": _ulist("tag_rule_issues_of", 3),
+        "def_issues_of": _ulist("def_issues_of", 2), "all_tags_of": _ulist("all_tags_of", 1, "HedTag"),
         "tag_view": _tag_view, "basic_issues_of": _ulist("basic_issues_of", 3), "full_issues_of": _ulist("full_issues_of", 2),
         "str.replace": _str_replace, "replace_all": _str_replace,
         "forall_str": _forall_str, "dirname_of": _dirname_model, "commonpath2": _ufun("commonpath2", 2),
